@@ -8,6 +8,8 @@ Local Open Scope N_scope.
 
 Definition SP : N := 32.
 Definition is_sp (c : N) : bool := c =? 32.
+Definition is_tab (c : N) : bool := c =? 9.
+Definition is_blank (c : N) : bool := is_sp c || is_tab c.
 
 (* state of the scan of one logical line *)
 Record fstate := mkF {
@@ -21,9 +23,11 @@ Record fstate := mkF {
 
 Definition fstep (w : nat) (st : fstate) (ch : N) : fstate :=
   if f_stop st then mkF (f_cur st ++ [ch]) (f_col st) (f_last st) (f_in st) (f_rs st) (f_rl st) (f_out st) true else
-  (* a run of spaces ends when a non-space arrives *)
+  (* a run of spaces ends when a non-space arrives; a run followed by a tab is no place to cut *)
   let '(last1, in1, rl1) :=
-    if f_in st && negb (is_sp ch) then (Some (f_rs st, f_rl st), false, 0%nat) else (f_last st, f_in st, f_rl st) in
+    if f_in st && negb (is_sp ch)
+    then ((if is_tab ch then f_last st else Some (f_rs st, f_rl st)), false, 0%nat)
+    else (f_last st, f_in st, f_rl st) in
   let pos := length (f_cur st) in
   let '(in2, rs2, rl2) :=
     if is_sp ch then (if in1 then (true, f_rs st, S rl1) else (true, pos, 1%nat)) else (in1, f_rs st, rl1) in
@@ -40,7 +44,7 @@ Definition fstep (w : nat) (st : fstate) (ch : N) : fstate :=
     end
   else mkF cur col last1 in2 rs2 rl2 (f_out st) false.
 
-(* the output lines of one logical line that is neither empty nor starts with a space *)
+(* the output lines of one logical line that is neither empty nor starts with a space or a tab *)
 Definition fold_line (w : nat) (line : list N) : list (list N) :=
   let st := fold_left (fstep w) line (mkF [] 0 None false 0 0 [] false) in
   rev (f_cur st :: f_out st).
@@ -55,7 +59,7 @@ Fixpoint split_on_nl (s acc : list N) : list (list N) :=
 Definition fold_block (w : nat) (s : list N) : list (list N) :=
   flat_map (fun line => match line with
                         | [] => [[]]
-                        | c :: _ => if is_sp c then [line] else fold_line w line
+                        | c :: _ => if is_blank c then [line] else fold_line w line
                         end) (split_on_nl s []).
 
 (* how a reader joins the lines of one folded paragraph: single spaces between them *)
@@ -67,7 +71,8 @@ Fixpoint join_sp (ls : list (list N)) : list N :=
   end.
 
 (* ---- inline comments ---- *)
-Definition is_break (c : N) : bool := (c =? 10) || (c =? 13).
+(* what ends a comment for the reader: LF, CR, and NUL (which ends the whole stream) *)
+Definition is_break (c : N) : bool := (c =? 10) || (c =? 13) || (c =? 0).
 Definition sanitize_comment (s : list N) : list N := map (fun c => if is_break c then SP else c) s.
 
 (* fn first_line_leading_spaces *)
